@@ -303,6 +303,9 @@ func (c *kCtx) deadlockSite(blocked []qsched.GoroutineInfo) string {
 func (c *kCtx) drain(k *kSys, hist []int, op int) {
 	c.terminals++
 	blocked := k.quiesce()
+	// a started keeper whose plotter goroutine no longer exists although nobody asked it to stop is a situation of
+	// its own: requests sent to it block for that reason, not for the reason of the listed send-under-lock finding
+	plotterGone := k.stopOp == nil && k.sk.Started() && !strings.Contains(k.s.LastDump, ").spacePlotter(")
 	if k.stopOp == nil {
 		blocked = k.do(kAction{Kind: "kstop"})
 	}
@@ -339,6 +342,9 @@ func (c *kCtx) drain(k *kSys, hist []int, op int) {
 	if len(pend) > 0 {
 		c.deadlocks++
 		site := c.deadlockSite(blocked)
+		if plotterGone {
+			site += "+plotter-goroutine-gone-before-stop"
+		}
 		outcome = "deadlock:" + site
 		if site == "no-call-blocked-outside-the-state-lock" {
 			c.viol("deadlock", "state-lock-never-released", fmt.Sprintf("calls that never return: %v; every blocked call waits for the state lock: a holder returned without unlocking, or a call that holds it waits for it again behind a waiting writer", pend), hist, op)
